@@ -29,6 +29,10 @@ CHECKS = {
    text="TLC enumerates all 1024 per-OnCompletion call configurations (spec/RouterGen.tla); routers built from them (single method: subset in quick / all in thorough; multi-method; bare-only; method + bare; with/without clear-state action) are compiled at versions 6..10 and TLC (spec/RouterCheck.tla) runs approval and clear-state programs on spec/AVM.tla for every call of the call domain as initial states (argument lists x OnCompletion 0..5 x create/call), comparing approval and the handler's logged marker with Router!Dispatch (spec/Router.tla).",
    note="handlers take no arguments here (argument marshalling is C09); the approval program is only judged for OnCompletion != ClearState and the clear-state program only for ClearState, as the ledger does",
    tech="TLA+ dispatch specification (TLC): emitted router programs executed on the AVM spec over the full call domain vs Dispatch()"),
+ "C09": dict(cat="model_checking", ref="5 C09",
+   text="For a catalogue of method signatures (0..17 plain parameters, transaction parameters in every position class, reference parameters incl. inside the packed tuple, void/non-void) spec/CallGen.tla computes from the ARC-4 calling convention and the codec of spec/ARC4.tla what a conforming client sends (application arguments with tuple packing from the 15th, foreign arrays, preceding transactions) and what an echo handler must log; the routed program (versions 6..10, both glue flavours) is run by TLC on spec/AVM.tla in that context (spec/Refine.tla): exactly the expected return log then approve; wrong transaction type fails. Contract description vs dispatched selectors is compared per router, also for renamed registrations.",
+   note="client side and expected bytes come from the TLA+ specification; selectors (hash) from the harness",
+   tech="TLA+ calling-convention specification (TLC) as client; routed programs executed on the AVM spec"),
  "C10": dict(cat="model_checking", ref="5 C10",
    text="A parameter grid (1..300 live variables x requested-id patterns incl. adjacent runs, 0/255 and duplicates x DynamicScratchVar views x main/subroutine placement x option settings) is enumerated completely; every variable receives a distinct marker and is read back. TLC runs each compiled text on spec/AVM.tla against the cell semantics of spec/PyTealSem.tla (read-back, index(), DynamicScratchVar) and compares all option settings incl. final user-numbered slots (spec/Refine.tla); TLC judges compile outcomes against the slot-limit model of spec/Accepts.tla (spec/Compile.tla).",
    note="frame-local ABI storage is covered by the ABI checks; the 256 limit is judged on unoptimised compilations only (the optimiser may legitimately remove a variable)",
